@@ -1,6 +1,9 @@
 use crate::data::{machine::*, table::*, validated_file::*, KikiErr, *};
 
+#[cfg(not(kiki_verif))]
 use std::collections::HashMap;
+#[cfg(kiki_verif)]
+use crate::verif_collections::HashMap;
 
 pub fn machine_to_table(machine: &Machine, file: &File) -> Result<Table, KikiErr> {
     ImmutContext::new(machine, file).get_table()
